@@ -457,6 +457,13 @@ def mk_operand(ctx, spec):
         return a.tolist(), a.tolist(), None
     if k == 'S':                       # Python scalar
         return spec[1], spec[1], None
+    if k == 'EB':                      # power spaces: element of the base space (depth 1) or
+        # of the base of the base (depth 2, nested power spaces); shape = trailing axes
+        sp = ctx.space
+        for _ in range(spec[2]):
+            sp = sp[0]
+        a = fill(ctx.dt, ctx.shape[spec[2]:], spec[1])
+        return sp.element(a.copy()), a.copy(), a
     if k == 'E2':                      # element of another space of the same family (outer)
         shape, variant, dt2 = spec[2], spec[3], spec[4]
         a = fill(dt2, shape, spec[1])
@@ -1196,7 +1203,7 @@ def _legacy_one(ctx, name, uf, x_fill, x2spec, outspec, kw, cls, red=None):
                 keep = [(o, b)]
     tags = _axis_tags(kw)
     if x2spec is not None and x2spec[0] != 'E':
-        tags.append('x2=' + x2spec[0])
+        tags.append('x2=' + x2spec[0] + (str(x2spec[2]) if x2spec[0] == 'EB' else ''))
     label = 'ufuncs:reduction' if red else 'ufuncs:%d->%d' % (uf.nin, uf.nout)
 
     def ref_call(arr, rkw):
@@ -1290,6 +1297,8 @@ def _legacy_one(ctx, name, uf, x_fill, x2spec, outspec, kw, cls, red=None):
         if x2spec is not None and x2spec[0] == 'C':
             # per-component broadcasting of a component-shaped array is NumPy's broadcasting
             x2np = ('A2', x2spec[1], ctx.shape[-1:])
+        elif x2spec is not None and x2spec[0] == 'EB':
+            x2np = ('A2', x2spec[1], ctx.shape[x2spec[2]:])
         ops = [('E', x_fill)] + ([x2np] if x2np is not None else [])
         if red is None:
             run_case(c2, uf, '__call__', ops, outspec, kw)
@@ -1371,7 +1380,12 @@ def sec_legacy(ctx, name, full):
     elif uf.nin == 2 and uf.nout == 1:
         seconds = [('E', 'b1'), ('S', sc), ('E', 'b2')]
         if power:
-            seconds += [('C', 'b1')]       # "support broadcasting, per component"
+            # "can also be used with non-vector arguments and support broadcasting, per
+            # component and even recursively": an array of the leaf shape, an element of the
+            # base space, and (nested power spaces) an element of the base of the base
+            seconds += [('C', 'b1'), ('EB', 'b1', 1)]
+            if ctx.ndim >= 3:
+                seconds += [('EB', 'b1', 2), ('EB', 'b2', 1)]
         else:
             seconds += [('A', 'b1'), ('B', 'b1')]
         outs = ['none', 'elem', 'alias']
@@ -1777,7 +1791,10 @@ def configs(tier):
                 cfgs.append({'sec': sec, 'kind': k, 'dtype': dt, 'ufunc': uf.__name__,
                              'full': fl})
     names = [u[0] for u in OU.UFUNCS] + sorted(LEGACY_RED)
-    for k, dt in kd:
+    # the nested power space belongs to the thorough tier, except for the legacy namespace,
+    # whose recursive per-component broadcasting only a nested space exercises
+    kd_legacy = kd + ([('p2p2t3', 'float64')] if tier == 'quick' else [])
+    for k, dt in kd_legacy:
         for name in names:
             cfgs.append({'sec': 'legacy', 'kind': k, 'dtype': dt, 'ufunc': name, 'full': fl})
     for k, dt in kd:
